@@ -1,5 +1,5 @@
 from vdriver import Job
-from props import seqcases, C02 as _C02
+from props import seqcases, C02 as _C02, C03 as _C03
 
 LEVEL = "other"
 TECHNIQUE = "bounded inductive contract check (CBMC) on the real container operations over an element model with a finalisation ledger / exceptional postconditions"
@@ -9,4 +9,4 @@ EXPLANATION = LEVEL_TEXT
 TRUSTED = []
 
 def jobs(tier):
-    return seqcases.array_jobs(tier, "C11") + _C02.table_jobs(tier, "C11")
+    return seqcases.array_jobs(tier, "C11") + _C02.table_jobs(tier, "C11") + _C03.tree_jobs(tier, "C11")
